@@ -18,7 +18,7 @@ HARNESS_DIR = os.path.join(ROOT, "harness")
 HARNESS_BIN = os.path.join(HARNESS_DIR, "target", "debug", "ht-harness")
 BUILD = os.path.join(ROOT, "build")
 REPLAYS = os.path.join(ROOT, "replays")
-EVIDENCE = os.path.join(ROOT, "evidence")
+EVIDENCE = os.environ.get("HT_EVIDENCE_DIR") or os.path.join(ROOT, "evidence")   # seeded-change trials write theirs elsewhere
 KNOWN_FINDINGS = os.path.join(ROOT, "KNOWN_FINDINGS.txt")
 HOOK_CFG = "halotrade_zone_halotrade_contracts_verif"
 
